@@ -16,7 +16,7 @@ Proof. destruct a, b; simpl; congruence. Qed.
 
 Lemma iexp_eqb_eq a b : iexp_eqb a b = true -> a = b.
 Proof.
-  destruct a as [x|x], b as [y|y]; simpl; intros H; try discriminate;
+  destruct a as [x|x|x], b as [y|y|y]; simpl; intros H; try discriminate;
     apply arg_eqb_eq in H; congruence.
 Qed.
 
@@ -76,7 +76,7 @@ Ltac split_and H :=
 (** the checker's per-access test is sound *)
 Lemma access_ok_sound st fs x : facts_hold st fs -> access_ok fs x = true -> safeb st x = true.
 Proof.
-  intros Hf H. destruct x as [v i|b i|s i|s i|s i|p a|a|i|]; cbn [access_ok] in H.
+  intros Hf H. destruct x as [v i|b i|s i|s i|s i|p a|a|i|i|]; cbn [access_ok] in H.
   - apply andb_true_iff in H as [H12 H3]. apply andb_true_iff in H12 as [H1 H2].
     destruct (fact_is st fs PVector v TVector Hf H1 eq_refl) as [o [Ho Ht]].
     pose proof (fact_cmp _ _ _ _ _ Hf H2) as C2. pose proof (fact_cmp _ _ _ _ _ Hf H3) as C3.
@@ -107,15 +107,16 @@ Proof.
   - apply existsb_exists in H as [p [Hp H]].
     assert (exists t, pred_tag p = Some t) as [t Ht].
     { unfold heap_preds in Hp. simpl in Hp.
-      destruct Hp as [<-|[<-|[<-|[<-|[]]]]]; simpl; eauto. }
+      destruct Hp as [<-|[<-|[<-|[<-|[<-|[<-|[]]]]]]]; simpl; eauto. }
     destruct (fact_is st fs p a t Hf H Ht) as [o [Ho _]]. unfold safeb. rewrite Ho. reflexivity.
   - pose proof (fact_cmp _ _ _ _ _ Hf H) as C. unfold cmpb, eval_l in C. exact C.
+  - apply has_In in H. apply Hf in H. exact H.
   - discriminate.
 Qed.
 
 (** * operand updates only disturb the guards that mention the operand *)
 Lemma eval_i_set st a v i : arg_eqb a (iexp_arg i) = false -> eval_i (set_arg st a v) i = eval_i st i.
-Proof. destruct i as [b|b]; simpl; intros H; rewrite H; reflexivity. Qed.
+Proof. destruct i as [b|b|b]; simpl; intros H; rewrite H; reflexivity. Qed.
 
 Lemma eval_l_set st a v l : lexp_mentions l a = false -> eval_l (set_arg st a v) l = eval_l st l.
 Proof.
